@@ -32,6 +32,43 @@ Space     N in {1,2,3,5,8} paths  x  ALL sequences of terminal spot values over 
           B9 of (spot at T/2, terminal spot) pairs {1, 2, 0.25} x {0.5, 1, 1.5} - the value at T/2 crosses up, down or not at
           all, the terminal values 1.5 / 0.5 cross on their own, the path starts at spot 1 - N <= 3 (9^N <= 729), controls
           none / 1a, spot statistics on/off, both representations; rows compared with the reference payoff of the whole path.
+          Rarely used options (both tiers): configuration seed = 7, the variance-reduction flag RICHARDSONEXTRAPOLATION (accepted
+          by the standard engine, must change nothing), a model WITHOUT a theoretical density (spot rows must still be stored
+          when spot statistics are on), and the three together - N <= 3, all A3 sequences, every payoff / control kind, on the
+          two corners (notional 2.5, df 0.9, spot on) and (notional 1, df 1, spot off). Key label `options-<names>`.
+          Sub "history" (both tiers): ONE Engine object (one ConfigurationStandard, one scripted process re-loaded with a new
+          script) priced two or three times; EVERY pricing is judged with the complete oracle above against its own script and
+          its own configured number of paths, and every MCStatistics object handed out earlier in the history is read again
+          after every later pricing (its figures must still be those of its own pricing). Numbers of paths from {1,2,3,5}:
+          all ordered pairs / triples (fewer, same, more). Between two pricings configuration.mc_paths is set and one
+          operation of the menu is applied:
+            plain     nothing else;
+            other     a second, completely separate engine (own configuration, process, product, controls; 4 paths, its own
+                      script) is priced in between and judged too (leaks through class attributes, shared default arguments,
+                      module-level state);
+            deepcopy  the history goes on with copy.deepcopy(engine);
+            fork      a deep copy of the engine is priced in between (4 paths, same product object, judged too) and the
+                      ORIGINAL goes on.
+          The same Product / ControlVariates objects are priced again when a later pricing has the same payoff / controls.
+          (a) "paths": the same configuration re-priced - payoff s / v2, controls none / 1a / 2a, spot statistics on / off,
+              notional 2.5, df 0.9; all four operations in the identity representation, `plain` in the LOG representation
+              (these also carry seed = 7 and the variance-reduction flag); pairs (N1, N2); the first pricing runs the fixed
+              script A4 cycled from offset k (k = position of the pricing; contains the letter 2.0 which is not in A3), the
+              last pricing runs ALL A3 sequences for N2 <= 3 and, for N2 = 5, the 27 sequences starting with (0.5, 1.5)
+              (thorough: all 243 for `plain`/identity; payoff v3 and every control kind as well).
+          (b) "paths3": three pricings of the same configuration, triples (N1, N2, N3), operations (plain, plain) (thorough:
+              all 16 pairs of operations on the quick configurations); last pricing: all A3 sequences for N3 <= 2, the fixed
+              script for N3 in {3, 5}.
+          (c) "config": the configuration changes between two pricings of one engine (`plain`): every ordered pair of
+              different (payoff, controls, spot statistics) configurations of (a) - configuration.control_variates /
+              activate_spot_statistics re-assigned, another product priced - and, on every configuration, every ordered pair of
+              different (notional, df) in {(2.5, .9), (1, .9), (2.5, 1)} (another product object / another discount factor
+              of the process); and the TYPE of the product's underlying changes - scalar call on Spot / LogSpot / Mean, all
+              ordered pairs, both representations - while the SAME ControlVariates object (1a, 2a: controls on Spot) stays in
+              the configuration; all pairs (N1, N2); fixed scripts (thorough: all A3 sequences for N2 <= 2).
+          Keys of this sub end with `history:<rep>:<first-pricing | re-pricing-with-{fewer,same-number-of,more}-paths:
+          {same-configuration | changed-<fields>}:after-<operation> | side-engine-{other,fork}>`; the re-read sub-check reports
+          `C07:history:result-of-earlier-pricing-changed-by-later-pricing:<earlier>:then:<later>`.
           quick = the full lattice for N <= 5 on A3 (and LOG for N <= 3), A4 for N <= 3 in full and N = 5 on the sub-lattice
           notional 2.5 / df 0.9 / spot on, N = 8 on that sub-lattice for payoff s, v2 and controls none, 1a, 2a;
           thorough = everything (N = 8 and A4 with N = 5 on the full lattice).
@@ -65,7 +102,9 @@ Findings on the tree this module was built against (reproducers and proposed pat
   ...:cv:variance:adjusted-sample-variance-exceeds-raw:rank-deficient:*    inverse of a numerically singular Sigma_X (controls
                                                                            collinear on the sample) when inv() does not raise
 
-Outside the statement / alphabet (not asserted): mc_stddev for N = 1 (the unbiased standard deviation does not exist);
+Outside the statement / alphabet (not asserted): histories with path-dependent (barrier) payoffs or with a change of the
+process / representation on one engine (the sub "mixed" re-uses product and controls across representations with fresh
+engines); direct calls of Engine.initialisation; mc_stddev for N = 1 (the unbiased standard deviation does not exist);
 which coefficient is taken when the controls' sample covariance is singular; controls whose variance is below the
 library's absolute 1e-12 threshold although the matrix is invertible (needs payoffs of size 1e-6: not in the notional
 alphabet; mentioned in the report); get_variance(); nb_of_processes > 1; antithetic sampling (raises NotImplementedError).
@@ -75,6 +114,7 @@ cond(Sigma_X) <= 1e6; a wrong coefficient changes the variance at order scale^2)
 """
 from __future__ import annotations
 
+import copy
 import math
 import warnings
 
@@ -88,7 +128,10 @@ LEVEL = "exploration"
 RULE = (
     "complete product of the stated lattice (N, alphabet, payoff dimension, control kind, notional, discount factor, spot "
     "statistics, representation) x every sequence of terminal values over the alphabet; one evaluation = one complete run of "
-    "the real Engine.price on a fresh engine compared with the pure-Python reference; a case (block of consecutive "
+    "the real Engine.price on a fresh engine compared with the pure-Python reference; sub 'history': complete product of "
+    "(configuration chain, operation menu, ordered tuples of path numbers from {1,2,3,5}) x every A3 sequence of the last "
+    "pricing in the stated range, every pricing on the ONE re-used engine judged by the same reference and every earlier "
+    "result object re-read; a case (block of consecutive "
     "sequences of one configuration) is non-trivial when at least one of its runs had two different terminal values; "
     "distinct = distinct case dict"
 )
@@ -96,6 +139,8 @@ ASSUMPTIONS = [
     "the process is a scripted stand-in (mc/c07_util.py) implementing the interface the standard engine uses; engine, "
     "configuration, statistics, path manager, product, payoffs and control variates are the real ones",
     "single process (nb_of_processes=1); the worker pool is the subject of C08",
+    "sub 'history': the MCStatistics object returned by a pricing is taken to be the report of THAT pricing (no 'valid until "
+    "the next price() call' clause in the statement), so it must read the same after later pricings",
     "stored rows are read from MCStatistics._payoff_statistics / _control_variates_statistics / "
     "_payoff_statistics_with_cv / _spot_underlying_statistics (.stats); if an attribute is missing the row sub-checks are "
     "skipped and counted, the public price()/mc_stddev() sub-checks remain",
@@ -181,11 +226,76 @@ def cases(tier):
                         for lo, hi in _blocks(n, 9):
                             out.append({"sub": "sweep", "payoff": payoff, "cv": cv, "notional": 2.5, "df": 0.9, "spot": spot,
                                         "alphabet": "B9", "rep": rep, "N": n, "lo": lo, "hi": hi})
+    # rarely used options of the configuration / the model: a seed, a variance-reduction flag the standard engine accepts
+    # (Richardson extrapolation), a model without a theoretical density under activated spot statistics
+    for n in (1, 2, 3):
+        for c in confs:
+            if sub_lattice(c) or (c["notional"] == 1.0 and c["df"] == 1.0 and c["spot"] == 0):
+                for opt in ({"seed": 7}, {"vr": 1}, {"nodensity": 1}, {"seed": 7, "vr": 1, "nodensity": 1}):
+                    out.append(dict(c, sub="sweep", alphabet="A3", rep="identity", N=n, lo=0, hi=3 ** n, **opt))
+    out.extend(_history_cases(thorough))
     for c in confs:
         if not thorough and not (sub_lattice(c) and c["payoff"] in ("s", "v2") and c["cv"] in ("none", "1a", "2a")):
             continue
         for lo, hi in _blocks(8, 3):
             out.append(dict(c, sub="sweep", alphabet="A3", rep="identity", N=8, lo=lo, hi=hi))
+    return out
+
+
+HIST_NS = (1, 2, 3, 5)
+HIST_OPS = ("plain", "other", "deepcopy", "fork")
+
+
+def _history_cases(thorough):
+    """Sub 'history': ONE Engine object (one configuration, one scripted process) priced two or three times; see the module
+    docstring. A case = one chain of per-pricing configurations and operations with ONE tuple of path numbers; its histories
+    are the letter sequences of the last pricing."""
+    import itertools
+
+    out = []
+    payoffs = ("s", "v2", "v3") if thorough else ("s", "v2")
+    cvs = U.CV_KINDS if thorough else ("none", "1a", "2a")
+    base = [{"payoff": p, "cv": c, "spot": sp, "notional": 2.5, "df": 0.9} for p in payoffs for c in cvs for sp in (0, 1)]
+    sweep5 = "all" if thorough else "block"
+
+    def case(kind, rep, cfgs, ops, ns_list, sweep_max, s5):
+        steps = [dict(c, op=o) for c, o in zip(cfgs, ("first",) + tuple(ops))]
+        return {"sub": "history", "kind": kind, "rep": rep, "steps": steps, "Ns": [list(ns) for ns in ns_list],
+                "sweep_max": sweep_max, "sweep5": s5, "alphabet": "A3"}
+
+    quick_base = [c for c in base if c["payoff"] in ("s", "v2") and c["cv"] in ("none", "1a", "2a")]
+    # (a) same configuration re-priced with another number of paths, every operation of the menu in between
+    for n1 in HIST_NS:  # simplest first
+        for c in base:
+            for rep, ops in (("identity", HIST_OPS), ("log", ("plain",))):
+                for op in ops:
+                    s5 = "all" if thorough and op == "plain" and rep == "identity" else "block"
+                    out.append(case("paths", rep, (c, c), (op,), [(n1, n2) for n2 in HIST_NS], 3, s5))
+    # (b) three pricings of the same configuration (grow then shrink, shrink then grow, ...)
+    for n1, n2 in itertools.product(HIST_NS, repeat=2):
+        for c in base:
+            ops3 = list(itertools.product(HIST_OPS, repeat=2)) if thorough and c in quick_base else [("plain", "plain")]
+            for ops in ops3:
+                out.append(case("paths3", "identity", (c, c, c), ops, [(n1, n2, n3) for n3 in HIST_NS], 2, "none"))
+    # (c) the configuration changes between the two pricings: every ordered pair of different (payoff, controls, spot
+    #     statistics) configurations, and notional / discount factor changes on every configuration
+    chains = [(a, b) for a in base for b in base if a != b]
+    alt = ({"notional": 2.5, "df": 0.9}, {"notional": 1.0, "df": 0.9}, {"notional": 2.5, "df": 1.0})
+    for c in base:
+        for a in alt:
+            for b in alt:
+                if a != b:
+                    chains.append((dict(c, **a), dict(c, **b)))
+    for a, b in chains:
+        out.append(case("config", "identity", (a, b), ("plain",), list(itertools.product(HIST_NS, repeat=2)), 2 if thorough else 0, "none"))
+    # ... and the TYPE of the product's underlying changes (Spot / LogSpot / Mean, scalar strike) while the same ControlVariates
+    # object (forward, forward + call on Spot) stays in the configuration: its value functions are implied from the product's
+    # underlying at every pricing; both representations
+    for rep in ("identity", "log"):
+        for cvk in ("1a", "2a"):
+            for pa, pb in itertools.permutations(("s", "ls", "m"), 2):
+                a, b = ({"payoff": q, "cv": cvk, "spot": 1, "notional": 2.5, "df": 0.9} for q in (pa, pb))
+                out.append(case("config", rep, (a, b), ("plain",), list(itertools.product(HIST_NS, repeat=2)), 2 if thorough else 0, "none"))
     return out
 
 
@@ -200,7 +310,7 @@ def _vec(x):
 def _stats_array(st, name):
     obj = getattr(st, name, None)
     arr = getattr(obj, "stats", None)
-    return None if arr is None else np.asarray(arr, dtype=float)
+    return None if arr is None else np.array(arr, dtype=float)  # a copy: a later pricing must not change what was read
 
 
 def _dimk(d):
@@ -212,28 +322,43 @@ def _cls_letters(letters):
     return "constant-sample" if k == 1 else f"{k}-letter-sample"
 
 
-def run_engine(case, letters, objects=None):
-    """One complete run of the real engine (fresh engine, configuration and process; fresh product / controls unless
-    `objects` are handed in). Returns a dict of observations (or the exception)."""
-    eng, proc, product = U.build_engine(case, letters, objects)
-    obs = {"exc": None}
+def _price_and_observe(eng, product):
+    """One Engine.price call on the given engine object and everything that is read from its result."""
+    obs = {"exc": None, "st": None}
     try:
         with np.errstate(all="ignore"), warnings.catch_warnings():
             warnings.simplefilter("ignore")
             st = eng.price(product)
-            obs["raw_price"] = _vec(st.price(no_control_variates=True))
-            obs["price"] = _vec(st.price())
-            obs["raw_se"] = _vec(st.mc_stddev(no_control_variates=True))
-            obs["se"] = _vec(st.mc_stddev())
-        obs["Y"] = _stats_array(st, "_payoff_statistics")
-        obs["X"] = _stats_array(st, "_control_variates_statistics")
-        obs["A"] = _stats_array(st, "_payoff_statistics_with_cv")
-        obs["spot"] = _stats_array(st, "_spot_underlying_statistics")
+            obs["st"] = st
+            obs.update(_read_result(st))
     except Exception as e:  # the library failing on an input of the alphabet is an observation, not a harness error
         obs["exc"] = e
+    proc = eng.process
     obs["calls"] = proc.calls
     obs["log"] = list(proc.log)
     return obs
+
+
+def _read_result(st):
+    out = {}
+    with np.errstate(all="ignore"), warnings.catch_warnings():
+        warnings.simplefilter("ignore")
+        out["raw_price"] = _vec(st.price(no_control_variates=True))
+        out["price"] = _vec(st.price())
+        out["raw_se"] = _vec(st.mc_stddev(no_control_variates=True))
+        out["se"] = _vec(st.mc_stddev())
+    out["Y"] = _stats_array(st, "_payoff_statistics")
+    out["X"] = _stats_array(st, "_control_variates_statistics")
+    out["A"] = _stats_array(st, "_payoff_statistics_with_cv")
+    out["spot"] = _stats_array(st, "_spot_underlying_statistics")
+    return out
+
+
+def run_engine(case, letters, objects=None):
+    """One complete run of the real engine (fresh engine, configuration and process; fresh product / controls unless
+    `objects` are handed in). Returns a dict of observations (or the exception)."""
+    eng, proc, product = U.build_engine(case, letters, objects)
+    return _price_and_observe(eng, product)
 
 
 def _obs_fingerprint(obs):
@@ -256,6 +381,7 @@ def check_run(sh, case, letters, obs):
     # to the dimension label (which ends every key)
     dimk = case.get("dimlab", _dimk(d))
     cvlab = case.get("cvlab", cvk)
+    hlab = case.get("hlab", "")  # sub "history": position of the pricing, appended to the keys that carry no dimension label
     nt, df = case["notional"], case["df"]
     spec = U.control_spec(cvk, d, case["payoff"])
     ncv = len(spec)
@@ -277,7 +403,7 @@ def check_run(sh, case, letters, obs):
 
     # ---- calls: each path simulated exactly once
     if obs["calls"] != n:
-        sh.violation(f"C07:calls:simulate_one_path:count-differs-from-configured-paths",
+        sh.violation(f"C07:calls:simulate_one_path:count-differs-from-configured-paths{hlab}",
                      f"{obs['calls']} paths were simulated for mc_paths={n}", detail0)
 
     scale = max(nt * df, max((abs(v) for row in Y for v in row), default=0.0))
@@ -321,14 +447,14 @@ def check_run(sh, case, letters, obs):
     if case["spot"]:
         Sl = obs["spot"]
         if Sl is None:
-            sh.violation("C07:rows:spot:no-spot-statistics-though-activated", "activate_spot_statistics=True but no spot rows are stored", detail0)
+            sh.violation(f"C07:rows:spot:no-spot-statistics-though-activated{hlab}", "activate_spot_statistics=True but no spot rows are stored", detail0)
         else:
             Sr = np.array(S, dtype=float).reshape(n, 1)
             if Sl.shape != Sr.shape:
-                sh.violation("C07:rows:spot:shape", f"spot array has shape {Sl.shape}, expected {Sr.shape}", detail0)
+                sh.violation(f"C07:rows:spot:shape{hlab}", f"spot array has shape {Sl.shape}, expected {Sr.shape}", detail0)
             elif not np.allclose(Sl, Sr, rtol=1e-12, atol=0.0):
                 i = int(np.argwhere(~np.isclose(Sl, Sr, rtol=1e-12, atol=0.0))[0][0])
-                sh.violation(f"C07:rows:spot:row-differs-from-terminal-spot:{case.get('rep', 'identity')}",
+                sh.violation(f"C07:rows:spot:row-differs-from-terminal-spot:{case.get('rep', 'identity')}{hlab}",
                              f"spot row {i} = {Sl[i, 0]!r}, terminal spot of path {i} = {Sr[i, 0]!r}", dict(detail0, stored=Sl.ravel().tolist()))
     elif obs["spot"] is not None:
         sh.count("spot_rows_present_though_not_activated")
@@ -527,6 +653,9 @@ def _pricings(case):
     if case["sub"] != "mixed":
         if case["payoff"] in U.BARRIER_KINDS:  # narrower input class in the keys of the path-dependent payoffs
             return [dict(case, dimlab=f"dim1:{case['payoff']}:{case['rep']}:spot-statistics-{'on' if case['spot'] else 'off'}")]
+        opts = [k for k in ("seed", "vr", "nodensity") if case.get(k)]
+        if opts:
+            return [dict(case, dimlab=f"{_dimk(U.payoff_dim(case['payoff']))}:options-{'+'.join(opts)}")]
         return [case]
     out = []
     reps = case["reps"]
@@ -545,8 +674,144 @@ def run_sequence(case, letters):
     return [(c, run_engine(c, letters, objects)) for c in pr]
 
 
+# ----------------------------------------------------------------------------------------------------------------------
+# sub "history": ONE engine object priced several times
+# ----------------------------------------------------------------------------------------------------------------------
+
+HIST_FIELDS = ("payoff", "cv", "spot", "notional", "df")
+
+
+def _result_fingerprint(r):
+    def f(a):
+        return None if a is None else np.asarray(a).tobytes()
+
+    return (repr(r["raw_price"]), repr(r["price"]), repr(r["raw_se"]), repr(r["se"]), f(r["Y"]), f(r["X"]),
+            f(r["A"]) if r["X"] is not None else None, f(r["spot"]))
+
+
+def _hist_indices(case, ns):
+    """Indices of the letter sequences of the LAST pricing (-1 = the fixed script)."""
+    if "lo" in case:  # replay of one history
+        return range(case["lo"], case["hi"])
+    n = ns[-1]
+    if n <= case["sweep_max"]:
+        return range(3 ** n)
+    if n == 5 and case["sweep5"] == "block":
+        return range(54, 81)  # the sequences of A3^5 starting with (0.5, 1.5)
+    if n == 5 and case["sweep5"] == "all":
+        return range(3 ** 5)
+    return (-1,)
+
+
+def _hist_label(prev, cur, op):
+    if prev is None:
+        return "first-pricing"
+    rel = "fewer" if cur["N"] < prev["N"] else ("more" if cur["N"] > prev["N"] else "same-number-of")
+    chg = [f for f in HIST_FIELDS if cur[f] != prev[f]]
+    return f"re-pricing-with-{rel}-paths:{'changed-' + '+'.join(chg) if chg else 'same-configuration'}:after-{op}"
+
+
+def run_history(case, ns, idx):
+    """One history on ONE Engine object. Returns (records, changed): records = [(per-pricing case, letters, observation)] in
+    the order of the pricings (side engines included), changed = [(label of the earlier pricing, label of the pricing after
+    which its result object read differently)]."""
+    rep = case["rep"]
+    steps = [dict(cfg, N=int(n)) for cfg, n in zip(case["steps"], ns)]
+    objs = U.HistoryObjects()
+    records, kept, changed = [], [], []
+    eng = None
+    last = len(steps) - 1
+
+    def label_case(stp, pos):
+        d = U.payoff_dim(stp["payoff"])
+        opt = {"seed": 7, "vr": 1} if rep == "log" else {}  # the log histories also carry the rarely used options
+        return dict(stp, sub="history", rep=rep, alphabet="A3/A4-script", dimlab=f"{_dimk(d)}:history:{rep}:{pos}", hlab=f":history:{pos}", **opt)
+
+    def after(sc, letters, obs):
+        records.append((sc, letters, obs))
+        # every result object handed out earlier in this history is read again: the figures of a pricing belong to that pricing
+        for name, st, fp in kept:
+            try:
+                now = _result_fingerprint(_read_result(st))
+            except Exception as e:  # noqa: BLE001 - reading an earlier result fails now
+                now = ("raises", type(e).__name__)
+            if now != fp and (name, sc["dimlab"]) not in changed:
+                changed.append((name, sc["dimlab"]))
+        if obs["exc"] is None and obs["st"] is not None:
+            kept.append((sc["dimlab"], obs["st"], _result_fingerprint(obs)))
+
+    for k, stp in enumerate(steps):
+        op = stp["op"]
+        letters = U.script_letters(k, stp["N"])
+        if k == last and idx >= 0:
+            letters = [U.ALPHABETS["A3"][j] for j in U.decode(idx, stp["N"], 3)]
+        prev = steps[k - 1] if k else None
+        sc = label_case(stp, _hist_label(prev, stp, op))
+        product, cv = objs.product(stp), objs.controls(stp)
+        if k == 0:
+            eng, _, _ = U.build_engine(sc, letters, (product, cv))
+        else:
+            if op in ("other", "fork"):
+                side_letters = U.script_letters(k, U.SIDE_N, reverse=True)
+                if op == "other":  # a second, completely separate engine of the same classes is priced in between
+                    side = label_case(dict(stp, N=U.SIDE_N), "side-engine-other")
+                    e2, _, prod2 = U.build_engine(side, side_letters, None)
+                else:  # a deep copy of the engine is priced in between (same product object), the original goes on
+                    side = label_case(dict(prev, N=U.SIDE_N), "side-engine-fork")
+                    e2 = copy.deepcopy(eng)
+                    e2.configuration.mc_paths = U.SIDE_N
+                    e2.process.load(side_letters)
+                    prod2 = objs.product(prev)
+                after(side, side_letters, _price_and_observe(e2, prod2))
+            elif op == "deepcopy":  # the history goes on with a deep copy of the engine
+                eng = copy.deepcopy(eng)
+            conf = eng.configuration
+            conf.mc_paths = stp["N"]
+            conf.activate_spot_statistics = bool(stp["spot"])
+            if U.HistoryObjects.controls_key(stp) != U.HistoryObjects.controls_key(prev):
+                conf.control_variates = cv
+            eng.process.load(letters, df=stp["df"])
+        after(sc, letters, _price_and_observe(eng, product))
+    return records, changed
+
+
+def check_history_case(sh, case):
+    block = dict(case)
+    nontrivial = False
+    first = True
+    for ns in case["Ns"]:
+        for idx in _hist_indices(case, ns):
+            sh.case = dict(block, Ns=[list(ns)], lo=idx, hi=idx + 1)  # minimal replay
+            records, changed = run_history(case, ns, idx)
+            sh.count("histories")
+            for sc, letters, obs in records:
+                check_run(sh, sc, letters, obs)
+                if len(set(letters)) > 1:
+                    nontrivial = True
+            sh.cls(f"history:length-{len(ns)}:ops-{'-'.join(c['op'] for c in case['steps'][1:])}")
+            for sc, _, _ in records[1:]:
+                sh.cls("history:" + sc["dimlab"].split(":", 3)[3])
+            sh.count("earlier_results_re_read", max(0, len(records) * (len(records) - 1) // 2))
+            for name, when in changed:
+                sh.violation(f"C07:history:result-of-earlier-pricing-changed-by-later-pricing:{name.split(':', 3)[3]}:then:{when.split(':', 3)[3]}",
+                             f"the MCStatistics object returned by the pricing [{name}] reads differently after the pricing [{when}] "
+                             f"(its price / error / stored rows are no longer those of its own paths)",
+                             {"Ns": list(ns), "steps": case["steps"]})
+            if first:
+                first = False
+                again, changed2 = run_history(case, ns, idx)
+                if [_obs_fingerprint(o) for _, _, o in again] != [_obs_fingerprint(o) for _, _, o in records] or changed2 != changed:
+                    sh.violation("NONDETERMINISM", f"two runs of {sh.case} differ", None)
+                sh.count("determinism_rechecks")
+    sh.case = block
+    if nontrivial:
+        sh.nontriv(block)
+
+
 def check_case(sh, case):
     U.quiet()
+    if case["sub"] == "history":
+        return check_history_case(sh, case)
     block = dict(case)
     letters_all = U.ALPHABETS[case["alphabet"]]
     n = case["N"]
